@@ -173,7 +173,7 @@ func (m *c11Mon) finish(quiesced bool, expiries int) {
 	}
 	m.r.Eval(fmt.Sprintf("%s|%s|%x", m.class, m.desc, h.Sum64()), m.copies > 0)
 	m.r.Add("cases_"+m.class, 1)
-	if m.copies > 0 && m.vio == 0 && m.r.NeedSample() {
+	if m.copies > 0 && m.r.NeedSample() {
 		tr := m.s.Trace
 		if len(tr) > 40 {
 			tr = tr[:40]
